@@ -125,6 +125,17 @@ theorem equality_sound {env : Env} (he : EnvOK env) (hw : WkClosed env) {B C : S
   obtain ⟨hroot, hcl⟩ := worklist_closed hp
   exact ⟨closed_sound he hw hcl v b c hroot, closed_sound_rev he hw hs hcl v b c hroot⟩
 
+private theorem payload_ok_iff (env : Env) (S : Schema) (tid : TypeId) (depth : Nat) (payload : Bytes) :
+    validatePayload env S tid depth payload = .ok ↔
+      ∃ v, decodePayload scrypto depth payload = .ok v ∧ validate env S tid v = .ok () := by
+  unfold validatePayload
+  cases hd : decodePayload scrypto depth payload with
+  | error e => simp
+  | ok v =>
+    cases hv : validate env S tid v with
+    | error e => simp [hv]
+    | ok u => cases u; simp [hv]
+
 /-- `require_equality()` is strict. -/
 theorem requireEquality_strict : Settings.requireEquality.Strict := ⟨rfl, rfl, rfl⟩
 
@@ -133,20 +144,12 @@ give the same accept/reject answer for every payload and every depth limit. -/
 theorem equality_sound_current {B C : Schema} {b c : TypeId}
     (h : compareSingle genEnv B C .requireEquality b c = .done true) (depth : Nat) (payload : Bytes) :
     validatePayload genEnv B b depth payload = .ok ↔ validatePayload genEnv C c depth payload = .ok := by
-  unfold validatePayload
-  cases hd : decodePayload scrypto depth payload with
-  | error e => simp
-  | ok v =>
-    have := equality_sound genEnv_ok genEnv_wkClosed requireEquality_strict h v
-    cases hb : validate genEnv B b v with
-    | error e =>
-      cases hc : validate genEnv C c v with
-      | error e' => simp
-      | ok u => cases u; rw [hb, hc] at this; simp at this
-    | ok u =>
-      cases u
-      rw [hb] at this
-      simp [this.mp rfl]
+  rw [payload_ok_iff, payload_ok_iff]
+  constructor
+  · rintro ⟨v, hd, hv⟩
+    exact ⟨v, hd, (equality_sound genEnv_ok genEnv_wkClosed requireEquality_strict h v).mp hv⟩
+  · rintro ⟨v, hd, hv⟩
+    exact ⟨v, hd, (equality_sound genEnv_ok genEnv_wkClosed requireEquality_strict h v).mpr hv⟩
 
 /-- **numeric_weakening_is_superset.** A numeric validation change that the kernel classifies as
 unchanged or weakened only enlarges the accepted interval. -/
